@@ -38,8 +38,9 @@ N_NODES = 4
 # ---------------------------------------------------------------------------------------------
 def make_neuron(name, conns, idx):
     m = N_NODES
-    df = pd.DataFrame({'node_id': np.arange(1, m + 1), 'parent_id': [-1] + list(range(1, m)),
-                       'x': np.arange(m, dtype=float), 'y': 0.0, 'z': 0.0, 'radius': 0.01})
+    # node ids 0..m: connectors may sit on node id 0 (0-based SWC style ids)
+    df = pd.DataFrame({'node_id': np.arange(0, m + 1), 'parent_id': [-1] + list(range(0, m)),
+                       'x': np.arange(m + 1, dtype=float), 'y': 0.0, 'z': 0.0, 'radius': 0.01})
     n = navis.TreeNeuron(df, id=1000 + idx, name=name)
     if conns is not None:
         cid = np.array([int(r[0]) for r in conns], dtype=np.int64)
@@ -385,30 +386,31 @@ def gen_network(r, big=False):
         pool = ([0] + r.sample(range(1, 60), max(nconn - 1, 0)))[:nconn]
     tables = [[] for _ in range(nn)]
     violate = r.random() < 0.2
+    NODE_LO = 0 if r.random() < 0.35 else 1      # 0-based node ids in a third of the networks
     for c in pool:
         kind = r.choice(['full', 'full', 'full', 'poly', 'poly', 'pre_only', 'post_only', 'autapse', 'ignored'])
         pre = r.randrange(nn)
         if kind in ('full', 'poly', 'pre_only', 'autapse'):
-            tables[pre].append([c, r.randint(1, N_NODES), 0])
+            tables[pre].append([c, r.randint(NODE_LO, N_NODES), 0])
         if kind == 'full':
-            tables[r.randrange(nn)].append([c, r.randint(1, N_NODES), 1])
+            tables[r.randrange(nn)].append([c, r.randint(NODE_LO, N_NODES), 1])
         elif kind == 'poly':
             for _ in range(r.randint(2, 5)):
-                tables[r.randrange(nn)].append([c, r.randint(1, N_NODES), 1])
+                tables[r.randrange(nn)].append([c, r.randint(NODE_LO, N_NODES), 1])
         elif kind == 'post_only':
             for _ in range(r.randint(1, 3)):
-                tables[r.randrange(nn)].append([c, r.randint(1, N_NODES), 1])
+                tables[r.randrange(nn)].append([c, r.randint(NODE_LO, N_NODES), 1])
         elif kind == 'autapse':
-            tables[pre].append([c, r.randint(1, N_NODES), 1])
+            tables[pre].append([c, r.randint(NODE_LO, N_NODES), 1])
         elif kind == 'ignored':
-            tables[r.randrange(nn)].append([c, r.randint(1, N_NODES), r.choice([2, 3, -1, 7])])
+            tables[r.randrange(nn)].append([c, r.randint(NODE_LO, N_NODES), r.choice([2, 3, -1, 7])])
         if r.random() < 0.15:                      # exact duplicate of a postsynaptic row
             posts = [(i, row) for i, t in enumerate(tables) for row in t if row[0] == c and row[2] == 1]
             if posts:
                 i, row = r.choice(posts)
                 tables[i].append(list(row))
         if violate and r.random() < 0.4 and kind != 'post_only':
-            tables[r.randrange(nn)].append([c, r.randint(1, N_NODES), 0])     # second presynaptic row
+            tables[r.randrange(nn)].append([c, r.randint(NODE_LO, N_NODES), 0])     # second presynaptic row
     neurons = []
     for i in range(nn):
         t = tables[i]
